@@ -211,7 +211,7 @@ def m_fso_ties(st, st2):
     """fixsigns(other): is some per-mode correlation zero or are two of equal magnitude (then the pairing is not pinned)"""
     a = m_normalize(st, None, False, 2, None)
     b = m_normalize(st2, None, False, 2, None)
-    for r in range(len(b[0])):
+    for r in range(min(len(a[0]), len(b[0]))):
         sc = [sum(x * y for x, y in zip(colof(A, r), colof(B, r))) for A, B in zip(a[1], b[1])]
         if any(x == 0 for x in sc) or len(set(abs(x) for x in sc)) < len(sc):
             return True
@@ -469,7 +469,7 @@ def finish_terminal(rng, c08, s, st, shape):
             return s
         if s["op"] == "fixsigns_other":
             m_normalize(st, None, False, 2, None)
-            RB = rng.randint(1, min(R, 3))
+            RB = rng.randint(1, min(R, 3) + 1)          # fewer, as many, or one MORE component than the receiver (8ac87f0)
             for _ in range(6):
                 w2 = [rng.choice([1, 2, 3, -1]) for _ in range(RB)]
                 f2 = []
